@@ -136,7 +136,10 @@ def c20(run):
                       depth=14, seed=run.seed, workers=8, coverage=False)
     run.add_tlc("MC_C20(simulate,ops<=9)", res)
     rstw.replay(run, res.lines.get("BEH", []), run.seed + 1, limit=6000 if q else 60000)
-    run.assumptions += ["single-line field values; section/doctest/simple_table are not exercised",
+    # binding B: the writer calls of real pipeline runs (random modules, the repository's samples) replayed by TLC
+    import rstwtrace
+    rstwtrace.run(run, run.seed, 60 if q else 800)
+    run.assumptions += ["single-line field values; simple_table is not modelled; section/doctest are modelled for conformance only",
                         "the renderer of specification lines into text (harness/rstw.py render_line) is trusted"]
     return ("TLC enumerates API histories (text with 1-3 lines and own leading spaces, field, bulleted/enumerated list, "
             "directive, option, title change, clear, to_text on any writer incl. detached ones) up to the bound and checks "
@@ -586,6 +589,8 @@ def c07(run):
             run.violation({"file": f, "features": {"fixture": True}}, "no error-level message, directives only at top level",
                           {"messages": msgs, "top": [t[0] for t in top]}, "generated page of a repository sample is not well formed")
     run.notes["fixture_pages_parsed"] = n
+    import rstwtrace
+    rstwtrace.run(run, run.seed + 1, 40 if run.tier == "quick" else 600)
     run.assumptions += ["doc bodies are drawn from a menu of valid reST shapes; argument values contain no line breaks",
                         "docutils 0.23 with stub directives (module, function, data, py:class, py:method, py:attribute, toctree) "
                         "and a stub 'class' role stands for the Sphinx parser"]
